@@ -1,6 +1,7 @@
 """Drivers for histories of file-level operations (C15) on two real files."""
 from __future__ import annotations
 
+import gc
 import os
 
 from .. import gen, project
@@ -77,14 +78,40 @@ def observe_file(fp, paths, via_cli=False):
     return {"exists": True, "paths": out, "listing": lst, "listing_raised": lraised}
 
 
+def _close_leaked_ids():
+    """After a REFUSED hard link to an object behind an external link ('interfile hard links are not allowed'), h5py / HDF5
+    leaves the identifier of that object - which belongs to the other file - open although no Python object refers to it;
+    the other file then cannot be reopened for writing or truncated in this process.  Every operation of a history starts
+    from a clean library state, as a fresh `cooler cp|mv|ln` process would: whatever is still open after a garbage
+    collection is closed here and counted."""
+    import h5py
+    kinds = h5py.h5f.OBJ_FILE | h5py.h5f.OBJ_GROUP | h5py.h5f.OBJ_DATASET | h5py.h5f.OBJ_ATTR
+    n = 0
+    for i in h5py.h5f.get_obj_ids(h5py.h5f.OBJ_ALL, kinds):
+        try:
+            while i.valid:
+                h5py.h5i.dec_ref(i)
+            n += 1
+        except Exception:
+            pass
+    return n
+
+
 @driver("st.history")
 def st_history(case, ctx):
     import cooler
     d = ctx.subdir()
     paths = case["paths"]
     steps = []
+    leaked = 0
     for op in case["ops"]:
-        ok, err = True, ""
+        ok, err, msg = True, "", ""
+        # Objects reached through an external link belong to the OTHER file and stay open, after the file they were reached
+        # from is closed, for as long as anything refers to them - e.g. a frame kept alive by the traceback of an earlier,
+        # expected exception.  HDF5 then refuses to reopen that file for writing.  That is garbage-collection timing, not
+        # behaviour of the operations: collect before every operation.
+        gc.collect()
+        leaked += _close_leaked_ids()
         try:
             if op["op"] == "create":
                 cooler.create_cooler(uri(d, op["f"], op["p"], op.get("noslash", False)) if op["p"] or op.get("explicit_root")
@@ -114,8 +141,10 @@ def st_history(case, ctx):
                 else:
                     cooler.fileops.ln(s, t, soft=True, overwrite=op["ow"])
         except Exception as ex:
-            ok, err = False, type(ex).__name__
-        steps.append({"ok": ok, "err": err,
+            ok, err, msg = False, type(ex).__name__, str(ex)[:160].replace('"', "'")
+        gc.collect()
+        leaked += _close_leaked_ids()          # ... and the files are read back from a clean library state, too
+        steps.append({"ok": ok, "err": err, "msg": msg,
                       "f1": observe_file(os.path.join(d, "f1.cool"), paths, case.get("via") == "cli"),
                       "f2": observe_file(os.path.join(d, "f2.cool"), paths, case.get("via") == "cli")})
-    return {"steps": steps}
+    return {"steps": steps, "leaked_ids_closed": leaked}
